@@ -2,12 +2,58 @@
 open Model
 open Conv
 
+let rec canon (v : rval) : string =
+  match v with
+  | RSimple s -> "S:" ^ hex_of_bytes s
+  | RErr s -> "E:" ^ hex_of_bytes s
+  | RInt z -> "I:" ^ string_of_z z
+  | RBulk s -> "B:" ^ hex_of_bytes s
+  | RNull -> "N"
+  | RNullArr -> "N"
+  | RArr l -> "A[" ^ String.concat "," (List.map canon l) ^ "]"
+
+(* JSON tree of the scan model as text: strings and tokens carried as hex *)
+let rec jcanon (j : jval) : string =
+  match j with
+  | JStr s -> "{\"$s\":\"" ^ hex_of_bytes s ^ "\"}"
+  | JTok t -> "{\"$t\":\"" ^ hex_of_bytes t ^ "\"}"
+  | JNum n -> string_of_int (int_of_n n)
+  | JArr l -> "[" ^ String.concat "," (List.map jcanon l) ^ "]"
+  | JObj m -> "{" ^ String.concat "," (List.map (fun (k, v) -> "\"" ^ hex_of_bytes k ^ "\":" ^ jcanon v) m) ^ "}"
+
+let tval_of kind hex = if kind = "s" then TStr (bytes_of_hex hex) else TTok (bytes_of_hex hex)
+
+let parse_item (tok : string) : item =
+  match String.split_on_char ':' tok with
+  | [id; ok; obj; dout; pos; dist; fields] ->
+      let fs = if fields = "." then [] else
+        List.map (fun f -> match String.split_on_char '=' f with
+          | [n; k; v] -> (bytes_of_hex n, tval_of k v)
+          | _ -> failwith "bad field") (String.split_on_char ';' fields) in
+      { it_id = bytes_of_hex id; it_obj = tval_of ok obj; it_fields = fs;
+        it_distout = (dout = "1"); it_dist = bytes_of_hex dist; it_dist_pos = (pos = "1") }
+  | _ -> failwith "bad item"
+
 let handle (toks : string list) : string =
   match toks with
   | ["json_string"; s] -> hex_of_bytes (json_string (bytes_of_hex s))
   | ["valid_json"; s] -> bool_str (valid_json (bytes_of_hex s))
   | ["is_int_text"; s] -> bool_str (is_int_text (bytes_of_hex s))
   | ["string_safe"; s] -> bool_str (string_safe (bytes_of_hex s))
+  | ["resp_image"; b] ->
+      let bs = bytes_of_hex b in
+      if resp_in_image bs then
+        (match resp_parse bs with Some (v, _) -> "1 " ^ canon v | None -> "0")
+      else "0"
+  | "scan_render" :: out :: nof :: count :: cursor :: names :: items ->
+      let o = (match out with "ids" -> OIds | "count" -> OCount | _ -> OObjects) in
+      let r = { sr_out = o; sr_nofields = (nof = "1");
+                sr_names = (if names = "." then [] else List.map bytes_of_hex (String.split_on_char ',' names));
+                sr_items = List.map parse_item items;
+                sr_count = n_of_int (int_of_string count); sr_cursor = n_of_int (int_of_string cursor) } in
+      let j = render_json r and v = render_resp r in
+      let agree = (proj_json o j = Some (abs_of r)) && (proj_resp o v = Some (abs_of r)) in
+      Printf.sprintf "%s %s %s" (jcanon j) (canon v) (bool_str agree)
   | ["ws_header"; n] -> hex_of_bytes (ws_header (n_of_int (int_of_string n)))
   | ["ws_decode"; f] ->
       (match ws_decode (bytes_of_hex f) with Some p -> hex_of_bytes p | None -> "none")
